@@ -52,6 +52,20 @@ def run(ctx):
                            "binary": c01.run_binary(wsrc, ["-O0", "-fyield-support"], inp, os.path.join(common.BUILD, "c08", "w"))}, found_input=True)
         else:
             ctx.log("witness: the finding no longer reproduces")
+    w2 = {"outs": [], "hooks": ["h0", "h3"], "finish_codes": [], "yield_codes": [],
+          "body": [("match", ("lit", b"q")), ("case", [([("re", ("plus", ("seq", [("c", 100), ("c", 97), ("c", 107)])))], [("hook", "h0")])]), ("hook", "h3"), ("match", ("lit", b"\n"))]}
+    w2src = gen.pr_prog(w2)
+    c2 = c01.convert(w2, w2src, [], "-O0")
+    if c2["verdict"] == "ok":
+        res2 = refsem.run_refk([refsem.task_ref(c2["epr"], c2["em"], c2["I"], False)], timeout=300)[0]
+        if not res2.startswith("ok"):
+            inp2 = list(b"qdakdak\n")
+            ctx.violation("case:open-ended-clause-runs-per-repetition:witness",
+                          "a clause whose pattern can be extended after a complete match runs its body (and what follows the case) at every completion: hook h0; hook h3; parser { \"q\"; case { /(dak)+/ -> { h0(); } } h3(); \"\\n\"; } calls h0 and h3 twice on qdakdak\\n",
+                          {"program": w2src, "flags": ["-O0"], "input": inp2, "certificate": res2[:400],
+                           "binary": c01.run_binary(w2src, ["-O0"], inp2, os.path.join(common.BUILD, "c08", "w2"))}, found_input=True)
+        else:
+            ctx.log("witness 2: the finding no longer reproduces")
     n = 450 if quick else 2400
     levels = ["-O0", "-O3"] if quick else ["-O0", "-O1", "-O2", "-O3"]
     shapes = collections.Counter()
